@@ -48,6 +48,7 @@ Proof.
     [fq [rm [om [ry [oy [re [oe [rp [rn [omd [rw [ow [rwd [rnwd [owd [rh [oh [rmi [omi [rs [os Hx]]]]]]]]]]]]]]]]]]]]].
   cbv zeta in Hx.
   destruct Hx as [Hf [Hu [Hs [Hm [Hy [He [Hmd [Hw [Hwd [Hh [Hmi [Hsec [Hb Hr]]]]]]]]]]]]].
+  pose proof (ctor_zero_check ev st kw r H) as Hz.
   subst r. erewrite ctor_eq; try eassumption.
   - unfold trunc_until, kw_trunc. cbn. reflexivity.
   - cbn [kw_trunc k_until]. destruct (k_until kw) as [u|]; [|reflexivity]. exact Hu.
